@@ -1427,6 +1427,8 @@ class CloneAnalysis:
                         if len(ds) == 1 and ds[0].kind == 'assign' and ds[0].value is not None and match("WBS()", ds[0].value):
                             self.early.append((stt, body[0]))         # `new = WBS(); ...; if <cond>: return new`
         self._early_ids = {id(i.test) for i, _ in self.early}
+        self._pending_cov: List[tuple] = []
+        self.staging_calls: List[tuple] = []        # (call, helper, accumulator) of helpers that build the outside-task dict
         self.setdefaults: List[tuple] = []          # (function, labeller, call)
         self.helpers: List[tuple] = []              # (helper function, labeller) that receive the clone map
         for name in ('map', 'externals', 'relations', 'assembly', 'wbs_attrs', 'no_source_writes', 'once', 'fields'):
@@ -1679,10 +1681,27 @@ class CloneAnalysis:
             return None
         fo = fors[0]
         m = match("$d.items()", fo.iter)
-        if not (m and isinstance(m['d'], ast.Name) and isinstance(fo.target, ast.Tuple) and len(fo.target.elts) == 2 and
+        if not (m and isinstance(fo.target, ast.Tuple) and len(fo.target.elts) == 2 and
                 all(isinstance(x, ast.Name) for x in fo.target.elts) and fo.target.elts[0].id == karg.id and fo.target.elts[1].id == varg.id):
             return None
+        if isinstance(m['d'], ast.Call):
+            return self._staged_helper(f, L, call, karg, m['d'], fo, cn)
+        if not isinstance(m['d'], ast.Name):
+            return None
         d = m['d'].id
+        d0 = L.flow.defs_of(d)
+        if len(d0) == 1 and d0[0].kind == 'assign' and isinstance(d0[0].value, ast.Name) and d not in L.mutated and \
+                d0[0].node is not None and not L.cfg.conditions(d0[0].node) and not L.cfg.enclosing_fors(d0[0].node) and \
+                len([n for n in walk_no_nested(f.node) if isinstance(n, ast.Name) and n.id == d]) == 2:
+            d = d0[0].value.id                  # outer = found; for k, v in outer.items(): a read-only alias of the staging dict
+            alias_stmt = d0[0].stmt
+            d0 = L.flow.defs_of(d)
+        else:
+            alias_stmt = None
+        if len(d0) == 1 and d0[0].kind == 'assign' and isinstance(d0[0].value, ast.Call) and d0[0].node is not None and \
+                not L.cfg.conditions(d0[0].node) and not L.cfg.enclosing_fors(d0[0].node) and d not in L.mutated and \
+                len([n for n in walk_no_nested(f.node) if isinstance(n, ast.Name) and n.id == d]) == 2:
+            return self._staged_helper(f, L, call, karg, d0[0].value, fo, cn)        # outer = self.<helper>(..); for k, v in outer.items()
         if d == L.mapvar or d in L.map_aliases:
             return None
         ds = L.flow.defs_of(d)
@@ -1700,7 +1719,7 @@ class CloneAnalysis:
             if not (isinstance(n, ast.Name) and n.id == d):
                 continue
             p = par.get(id(n))
-            if p is ds[0].stmt or (isinstance(p, ast.Attribute) and par.get(id(p)) is fo.iter):
+            if p is ds[0].stmt or (isinstance(p, ast.Attribute) and par.get(id(p)) is fo.iter) or (alias_stmt is not None and p is alias_stmt):
                 continue
             if isinstance(p, ast.Subscript) and p.value is n and isinstance(p.ctx, ast.Store):
                 stt = par.get(id(p))
@@ -1718,6 +1737,97 @@ class CloneAnalysis:
                 continue                                 # membership tests / reads of the staging dict
             return None
         return fills if fills else None
+
+    def _staged_helper(self, f: Func, L: Labeller, call, karg, hcall: ast.Call, fo: ast.For, cn):
+        """for k, v in self.<helper>(<tasks>).items(): map.setdefault(k, v)  - the staging dict is built and returned by a private
+        helper of the same class.  The helper's fills are judged inside the helper (its parameters carry the caller's labels).
+        An accumulator that is a MUTABLE DEFAULT ARGUMENT of the helper and is not passed by the caller is REFUTED."""
+        if not (isinstance(hcall.func, ast.Attribute) and isinstance(hcall.func.value, ast.Name) and hcall.func.value.id == f.self_name
+                and f.cls and not any(isinstance(a, ast.Starred) for a in hcall.args)):
+            return None
+        h = self.prog.find_method(f.cls, unmangle(hcall.func.attr))
+        if h is None or h.kind != 'method' or h is f or any(h is x for x, _ in self.helpers):
+            return None
+        hn = L.cfg.node_of(fo)
+        if hn is None or L.cfg.conditions(hn) or L.cfg.enclosing_fors(hn) or not L.cfg.dominates(hn, L.cfg.exit):
+            return None
+        if [c for c in L.cfg.conditions(cn) if not self._absent_guard_atom(L, c, karg)]:
+            return None
+        ps = list(h.params)[1:]
+        if len(hcall.args) > len(ps):
+            return None
+        bound = dict(zip(ps, hcall.args))
+        for kw in hcall.keywords:
+            if kw.arg is None or kw.arg not in ps:
+                return None
+            bound[kw.arg] = kw.value
+        rets = [r for r in walk_no_nested(h.node) if isinstance(r, ast.Return)]
+        names = {r.value.id for r in rets if isinstance(r.value, ast.Name)}
+        if not rets or len(names) != 1 or not all(isinstance(r.value, ast.Name) for r in rets):
+            return None
+        acc = names.pop()
+        hflow = flow_of(h)
+        empty = lambda e: e is not None and (isinstance(e, ast.Dict) and not e.keys or bool(match("dict()", e)))
+        a = h.node.args
+        pos = a.posonlyargs + a.args
+        defaults = dict(zip([x.arg for x in pos[len(pos) - len(a.defaults):]], a.defaults))
+        defaults.update({x.arg: dflt for x, dflt in zip(a.kwonlyargs, a.kw_defaults) if dflt is not None})
+        ds = hflow.defs_of(acc)
+        shared_default = False
+        if acc in ps:
+            if len(ds) != 1:
+                return None                              # rebound (`found = found or {}` ...): not followed
+            if acc in bound:
+                if not empty(bound[acc]):
+                    return None
+            elif acc in defaults and empty(defaults[acc]):
+                shared_default = True
+            else:
+                return None
+        elif not (len(ds) == 1 and ds[0].kind == 'assign' and empty(ds[0].value) and ds[0].node is not None
+                  and not cfg_of(h).conditions(ds[0].node) and not cfg_of(h).enclosing_loops(ds[0].node)):
+            return None
+        params = {p_: L.label(bound[p_], hn) for p_ in ps if p_ in bound and p_ != acc}
+        hl = Labeller(self.ctx, h, None, params)
+        fills = self._dict_fills(h, hl, acc, {id(r.value) for r in rets} | ({id(ds[0].stmt)} if acc not in ps else set()))
+        if not fills:
+            return None
+        self.staging_calls.append((hcall, h, acc))
+        if shared_default:
+            self.refute(f, hcall, f"{acc}={{}}", f"the outside tasks are collected by `{src(hcall)[:60]}` in `{acc}`, a MUTABLE DEFAULT ARGUMENT of "
+                                                 f"{h.name} (`{acc}={{}}`) that the call does not pass: the one dict object is shared by all calls "
+                                                 f"on all WBS objects and keeps every outside task ever seen, so tasks registered by an earlier "
+                                                 f"clone()/subtree() enter this clone map as well - a link to a non-selected member with such "
+                                                 f"an id is wired to that stale foreign task instead of being left out")
+        return fills
+
+    def _dict_fills(self, F: Func, LAB: Labeller, d: str, skip_ids) -> Optional[list]:
+        """every use of the local / parameter dict `d` in F is a fill `d[K] = V` / `d.setdefault(K, V)` (returned as registrations)
+        or a harmless read; None when d is used in any other way"""
+        fills = []
+        par = _parent_map(F.node)
+        for n in walk_no_nested(F.node):
+            if not (isinstance(n, ast.Name) and n.id == d):
+                continue
+            p = par.get(id(n))
+            if id(n) in skip_ids or id(p) in skip_ids or isinstance(p, ast.arg):
+                continue
+            if isinstance(p, ast.Subscript) and p.value is n and isinstance(p.ctx, ast.Store):
+                stt = par.get(id(p))
+                if isinstance(stt, ast.Assign) and len(stt.targets) == 1 and not isinstance(p.slice, ast.Slice):
+                    fills.append((F, LAB, stt, p.slice, stt.value))
+                    continue
+                return None
+            if isinstance(p, ast.Attribute) and p.value is n and p.attr == 'setdefault':
+                c2 = par.get(id(p))
+                if isinstance(c2, ast.Call) and c2.func is p and len(c2.args) == 2 and not c2.keywords:
+                    fills.append((F, LAB, c2, c2.args[0], c2.args[1]))
+                    continue
+                return None
+            if isinstance(p, ast.Compare) or (isinstance(p, ast.Subscript) and isinstance(p.ctx, ast.Load)):
+                continue
+            return None
+        return fills
 
     def _absent_guard_atom(self, L: Labeller, cond, key: ast.AST) -> bool:
         t, pol = cond
@@ -1867,9 +1977,8 @@ class CloneAnalysis:
                                                               f"tasks outside the source WBS")
                 elif r not in covered:
                     why = f" (the scan runs over `{partial[r][0]}` only: {partial[r][1]})" if r in partial else ""
-                    self.refute(f, f.node, f"outside {r}", f"no `setdefault(x.id, x)` under `x.wbs != self` scans the {r} of every "
-                                                           f"selected task{why}: {r} that live outside the source WBS never enter the clone "
-                                                           f"map, so those links are dropped instead of being kept")
+                    # "dropped" is certain only when the rebuild of r is made of clone-map lookups: decided after _relations
+                    self._pending_cov.append((r, why))
 
     # ---------------------------------------------------------------- (c) + (d) relation rebuild
     def _map_lookup(self, L: Labeller, e: ast.AST):
@@ -1972,10 +2081,26 @@ class CloneAnalysis:
         return 'benign', implies, None
 
     def _relations(self):
+        self._good = {}
+        self._relations_inner()
+        f = self.f
+        for r, why in self._pending_cov:
+            if r in self._good:
+                self.refute(f, f.node, f"outside {r}", f"no `setdefault(x.id, x)` under `x.wbs != self` scans the {r} of every "
+                                                       f"selected task{why}: {r} that live outside the source WBS never enter the clone "
+                                                       f"map, so those links are dropped instead of being kept", 'externals')
+            elif not any(c == 'relations' and k == 'refute' and isinstance(cs, str) and cs == f"{r} not rebuilt"
+                         for c, k, _, _, cs, _ in self.facts):
+                self.undecided(f, f.node, f"outside {r}", f"no `setdefault(x.id, x)` under `x.wbs != self` scans the {r} of every selected "
+                                                          f"task{why}, and the rebuild of `{r}` is not made of clone-map lookups the rule "
+                                                          f"understands: cannot tell whether links to tasks outside the source WBS are kept",
+                               'externals')
+
+    def _relations_inner(self):
         if not self._need_map():
             return
         f, L = self.f, self.L
-        good = {}
+        good = self._good
         self._parent_lookup_seen = False
         parent_none_only = []
         for st, tgt, val in facts.attr_stores(f):
@@ -2551,6 +2676,13 @@ class CloneAnalysis:
                     getattr(node, 'left', getattr(node, 'target', None)))
                 if isinstance(recv, ast.Attribute) and ci.kind == 'operator' and isinstance(node, ast.AugAssign):
                     recv = recv.value
+                stg = [x for x in self.staging_calls if x[0] is node]
+                if stg and ci.kind == 'call' and len(ci.targets) == 1 and ci.targets[0] is stg[0][1]:
+                    # helper that builds the outside-task dict: its only writes go into its own accumulator
+                    hW = self.eff.writes_star(stg[0][1])
+                    if all(root in (f"param:{stg[0][2]}", 'fresh') for _, root in hW):
+                        n_ok += 1
+                        continue
                 if ci.kind == 'call' and isinstance(node, ast.Call):
                     # translate the callee's write roots (self / param:p) into the caller's expressions
                     written, opaque = [], False
